@@ -30,7 +30,9 @@ NUMBERS = [b'0', b'1', b'2', b'10', b'255', b'32767', b'0.5', b'1.25', b'3.', b'
 STRINGS = [b'"a"', b"'b'", b'""', b"''", b'"hello world"', b"'its'", b'"q\\"q"', b"'q\\'q'", b'"a\\nb"',
            b'"\\65\\066"', b'"\\0"', b'"tab\\there"', b'"\\\\"', b'"--not a comment"', b'"[[x]]"', b'[[long]]',
            b'[[a]b]]', b'[=[x]]y]=]', b'[==[]==]', b'"\\*\\#\\-\\|\\+\\^"', b'"\xe2\x99\xa5"', b'"\x80\xff"',
-           b"'\"'", b'"\'"', b'"1\\0012"', b'"\\a\\b\\f\\r\\v"']
+           b"'\"'", b'"\'"', b'"1\\0012"', b'"\\a\\b\\f\\r\\v"',
+           # an escaped backslash followed by digits is a backslash and digits, not a numbered escape
+           b'"c:\\\\0123"', b"'d:\\\\145'", b'"\\\\07"', b'"\\\\\\065"', b'"\\0\\\\0"']
 BINOPS = [b'+', b'-', b'*', b'/', b'%', b'^', b'..', b'==', b'~=', b'!=', b'<', b'>', b'<=', b'>=', b'and', b'or',
           b'&', b'|', b'^^', b'<<', b'>>', b'>>>', b'<<>', b'>><', b'\\']
 UNOPS = [b'-', b'not', b'#', b'~', b'@', b'%', b'$']
@@ -53,7 +55,9 @@ class Gen:
     def string(self):
         r = self.rng
         if self.multiline_strings and not self.oneline and r.random() < 0.08:
-            return r.choice([b'[[\nline1\nline2]]', b'[=[a\n]]\n]=]', b'"one\\\ntwo"', b'[[\n]]'])
+            return r.choice([b'[[\nline1\nline2]]', b'[=[a\n]]\n]=]', b'"one\\\ntwo"', b'[[\n]]',
+                             # only the FIRST line break after the opening bracket is skipped
+                             b'[[\n\n  game over\n]]', b'[==[\n\n]==]'])
         return r.choice(STRINGS)
 
     def primary(self, d):
